@@ -16,7 +16,7 @@ EXPLANATION = ("(formula) real set_vt on a symbolic A/C/G/T strand of n nucleoti
                "(both modes).  (lemma) the same sensitivity decided on the formula alone for longer strands")
 STUBS = [stubs.STUB_NOTE + " (only in the decode-rejection runs)"]
 ASSUMPTIONS = ["strands are over A,C,G,T; check length >= 1"]
-BUDGET_S = {"quick": 900, "thorough": 7200}
+BUDGET_S = {"quick": 900, "thorough": 1500}
 
 
 def make_loader(cfg):
